@@ -1,7 +1,7 @@
 """Regenerate MANIFEST.json from props_meta.json (claimed checks) and properties.jsonl."""
 import json, os
 V = os.path.dirname(os.path.dirname(os.path.abspath(__file__)))
-meta = json.load(open(os.path.join(V, "props_meta.json")))
+meta = {f[:-5]: json.load(open(os.path.join(V, "meta", f))) for f in sorted(os.listdir(os.path.join(V, "meta"))) if f.endswith(".json")}
 props = [json.loads(l) for l in open(os.path.join(V, "properties.jsonl"))]
 na_reasons = json.load(open(os.path.join(V, "not_applicable.json"))) if os.path.exists(os.path.join(V, "not_applicable.json")) else {}
 checks, na = [], []
